@@ -10,6 +10,8 @@ def sig_default(ev):
     """Finding signature of a rejected event: a specific call site / input class, never "any failure"."""
     k = ev.get("k")
     if k == "panic":
+        if ev.get("origin"):      # raised inside a third-party package, reached through the orb function `site`
+            return "panic:%s@%s<-%s" % (ev.get("fn"), ev.get("site"), ev.get("origin"))
         return "panic:%s@%s" % (ev.get("fn"), ev.get("site"))
     if k in ("timeout", "offlattice"):
         return "%s:%s" % (k, ev.get("fn"))
@@ -464,4 +466,38 @@ PLANS["C02"] = dict(
     rule="one event = one geometry / feature / feature collection with its JSON document and both decoded values; all events non-trivial; distinct = distinct event text",
     assumptions=["encoding/json (UseNumber) and go.mongodb.org bson read the produced bytes faithfully"],
     trusted_base=["TLC 2026.09.04", "CommunityModules Json/IOUtils", "encoding/json", "bson", "strconv.ParseFloat"],
+)
+
+# ---- C05 -------------------------------------------------------------------------------------------
+
+
+def run_c05(ctx):
+    ctx.mc("WkbMC", "WkbMC_quick.cfg", workers=4, note="reference WKB decoder: inverts the encoder, rejects every truncation (the oracle used on hostile bytes)")
+    ctx.mc("MvtMC", "MvtMC_quick.cfg", note="reference MVT command decoder total on every short word sequence")
+    for m in ("wkb", "wkt", "mvt"):
+        cases = ctx.tlcgen("DecGen", "DecGen_%s_%s.cfg" % (m, ctx.tier), workers=8, outname="decgen_%s.cases" % m)
+        shards = ctx.gen("decenum", cases=cases, name="decenum_" + m)
+        ctx.validate("Decoders_Trace", shards, stage="enumerated-" + m)
+    shards = ctx.gen("decmut")
+    ctx.validate("Decoders_Trace", shards, stage="tiles-and-mutations")
+    ctx.exhaustive = True
+    ctx.notes.append("exhaustive part: 2660 WKB headers x every truncation point; every WKT sentence of <=4 (quick) / <=5 (thorough) tokens over a 16-token alphabet; every MVT command-word sequence of <=4 words over 12 words x 3 geometry types; every 0-1 byte tile and every (7th) 2-byte tile")
+
+
+def sig_c05(ev):
+    s = sig_default(ev)
+    if ev.get("k") == "panic" and str(ev.get("origin", "")).startswith("go.mongodb.org/mongo-driver/bson/bsonrw.(*valueReader)") \
+            and "geojson.(" in str(ev.get("site", "")) and str(ev.get("site", "")).endswith("UnmarshalBSON"):
+        return "panic:geojson BSON unmarshallers<-go.mongodb.org/mongo-driver/bson/bsonrw.(*valueReader)"
+    return s
+
+
+PLANS["C05"] = dict(
+    run=run_c05, signature=sig_c05,
+    technique="TLA+ reference decoders of the codec specs as outcome oracles plus an allocation bound; TLC enumerates the finite hostile-input spaces named by the property for replay, and judges every recorded decoder outcome",
+    level_text="TLC emits exactly the finite spaces the property names - every WKB header (order byte x type word x boundary count x payload shape), every WKT sentence of <=4 (5) tokens over a 16-token alphabet, every MVT command-word sequence of <=4 words over a 12-word alphabet - and the harness runs every decoder entry point on each (WKB/EWKB byte, stream, scanner x 10 destinations incl. hex and SRID-prefix framing; wkt.Unmarshal and the 7 typed parsers; mvt.Unmarshal), on every truncation of every header, on all 0..2-byte tiles, and on seeded structure-aware mutations (truncate, bit flip, count inflation, splice, nesting, duplication, GeoJSON member edits) of valid WKB/EWKB, WKT, MVT, GeoJSON and BSON encodings. Each call runs under recover, a watchdog and a TotalAlloc delta. TLC requires: a value or an error (never a panic or hang), allocation <= 4096*len + 8 MB, and - where the reference decoder of the codec spec fixes the meaning - agreement: bytes the WKB grammar accepts decode on every path to one and the same value with stable re-encoding, properly-headed but truncated / over-counted bytes fail on every path, WKT sentences the grammar accepts and MVT command streams the state machine accepts decode to exactly the specified value.",
+    level_note="Coverage-guided fuzzing is a different technique and not used. Byte-level garbage inside JSON / BSON / protobuf framing is handled by encoding/json, bson and protoscan (not orb code): for those inputs only value-or-error and the allocation bound are demanded. Allocation is measured single-threaded with runtime.MemStats.TotalAlloc. Trusted: TLC, Json module, runtime.MemStats, recover-based panic capture.",
+    rule="one event = one input with the outcome of every decoder run on it and the bytes allocated; non-trivial = some decoder returned a value (WKB, WKT, MVT enumerations) / all raw events; distinct = distinct event text",
+    assumptions=["a hang is detected by the 30 s watchdog of the harness", "fatal runtime errors (out of memory, stack exhaustion) kill the harness and are reported as a crash violation"],
+    trusted_base=["TLC 2026.09.04", "CommunityModules Json/IOUtils", "runtime.MemStats", "vectortile.Tile.Marshal to wrap command words into a tile"],
 )
